@@ -28,10 +28,6 @@ RULES = {
   # ---- genuine defects (DESIGN §6; reproduced against the pristine tree)
   ("parsers::Buffer::scroll_left|", "known", "CSI Pn SP @ on rows not yet allocated / columns beyond the row's length: unguarded lines[i], chars.insert/remove"),
   ("parsers::Buffer::scroll_right|", "known", "CSI Pn SP A on rows not yet allocated / columns beyond the row's length: unguarded lines[i], chars.insert/remove"),
-  ("fonts::BitFont::from_bytes|", "known", "custom font DCS (CTerm:Font) with a payload shorter than the magic bytes: data[0..2] / data[0..4]"),
-  ("fonts::BitFont::load_psf1|", "known", "custom font DCS with a truncated PSF1 header: data[2], data[3]"),
-  ("fonts::BitFont::load_psf2|", "known", "custom font DCS with a truncated PSF2 header / header_size beyond the data"),
-  ("fonts::glyphs_from_u8_data|", "known", "custom font data whose length is not a multiple of the glyph height: data[..font_height]"),
   ("layer::Layer::insert_line|S5|", "known", "insert_line(end, ..) with a bottom margin taken unclamped from CSI r (negative when a parameter is 0): assert!(index >= 0)"),
   ("layer::Layer::remove_line|S5|", "known", "remove_line(line) with a negative line reached through degenerate margins: assert!"),
   ("insert_terminal_line|S3|remove(", "known", "lines.remove(end) with a bottom margin taken unclamped from CSI r (negative -> huge index)"),
@@ -205,5 +201,4 @@ RULES["C03"] = [
   ("layer::Layer::from_clipboard_data|MAG|", "known", "clipboard payload: u32 width and height go unchecked into Layer::new and the two cell loops"),
   ("fonts::BitFont::calculate_checksum|MAG|", "known", "PSF2 header `length` (u32) is stored as the glyph count and iterated by calculate_checksum"),
   ("cycle|<parsers::ansi::Parser as parsers::BufferParser>::print_char <-> parsers::ansi::Parser::invoke_macro_by_id", "known", "DECINVM: a macro may invoke itself or another macro that invokes it back; print_char -> invoke_macro_by_id -> print_char recursion has no depth bound (stack exhaustion)"),
-  ("fonts::glyphs_from_u8_data|progress|", "known", "custom font / PSF1 data with a glyph height of 0: `while !data.is_empty() { data = &data[font_height..] }` never advances"),
 ]
